@@ -36,7 +36,7 @@ def evaluate(case):
     c2 = dict(case, n=n, args=list(range(n)))
     s, w, obs = combo.run(c2, expr_of(case))
     viols = []
-    info = {"end": obs["end"], "concurrent": combo.concurrent(obs["events"])}
+    info = {"end": obs["end"], "concurrent": combo.concurrent(obs["events"]), "steps": s.steps}
 
     def bad(sig, **detail):
         detail["observed"] = {"final": obs["final"], "events": obs["events"]}
@@ -151,9 +151,23 @@ def enum_cases(part, parts):
                         yield {"p": p, "k": k, "predone": pre, "threads": [[ev_for(i, "V") for i in order if not mask >> i & 1]], "tape": []}
 
 
+def conc_catalog():
+    """Function future and argument futures completed by different threads at the same instant."""
+    out = {}
+    for p, k in ((1, 0), (2, 0), (1, 1)):
+        n = 1 + p + k
+        out["p%dk%d" % (p, k)] = {"p": p, "k": k, "threads": [[ev_for(i, "V")] for i in range(n)], "tape": []}
+        out["p%dk%d/fn-raises" % (p, k)] = {"p": p, "k": k, "fn_raises": True, "threads": [[ev_for(i, "V", True)] for i in range(n)], "tape": []}
+        out["p%dk%d/arg-fails" % (p, k)] = {"p": p, "k": k, "threads": [[ev_for(i, "E" if i == n - 1 else "V")] for i in range(n)], "tape": []}
+    return out
+
+
 def shards(tier, seed):
     parts = 8
     specs = [{"mode": "enum", "part": i, "parts": parts} for i in range(parts)]
+    cc = sorted(conc_catalog())
+    for i in range(0, len(cc), 1):
+        specs.append({"mode": "conc", "entries": cc[i:i + 1], "double": tier == "thorough"})
     n = 250 if tier == "quick" else 4000
     for i in range(8):
         specs.append({"mode": "random", "seed": seed * 1000 + i, "n": n})
@@ -192,6 +206,28 @@ def run_shard(spec, ctx):
             kk += 1
         ctx.exhaustive.append({"domain": "f_apply: (p,k) with p+k<=4 x all completion orders; failure/cancel/never at every position (p+k<=3); pre-done masks (p+k<=2) (part %d/%d)" % (spec["part"], spec["parts"]),
                                "size": kk, "complete": True})
+    elif spec["mode"] == "conc":
+        cat = conc_catalog()
+        for name in spec["entries"]:
+            base = cat[name]
+            v, info = evaluate(base)
+            account(ctx, base, v, info, ["conc"])
+            n = info.get("steps", 0)
+            count = 1
+            for i in range(n + 1):
+                for pk in (0, 1):
+                    c = dict(base, tape=[[i, pk]])
+                    v, info = evaluate(c)
+                    account(ctx, c, v, info, ["conc1"])
+                    count += 1
+                    if spec.get("double"):
+                        for j in range(12):
+                            c = dict(base, tape=[[i, pk], [j, 0]])
+                            v, info = evaluate(c)
+                            account(ctx, c, v, info, ["conc2"])
+                            count += 1
+            ctx.exhaustive.append({"domain": "concurrent completion of f_apply %s: every single pre-emption%s" % (name, " and windowed pairs" if spec.get("double") else ""),
+                                   "size": count, "complete": True})
     else:
         progs.random_search(ctx, spec, case_strategy(), evaluate, account)
 
